@@ -96,6 +96,11 @@ def build_case(cid, rng, selector, unimock=False, force_async=False, no_send=Fal
     L.append("pub struct ProvNotSync { pub c: ::core::cell::Cell<u8>, pub name: &'static str }")
     if notsync:
         L += impl_for("ProvNotSync", "ProvNotSync", "self.name")
+    # a provider that is Sync but not Send: `Impl<T>: Trait` only asks for `T: Sync + 'static`
+    notsend = (not dyn) and not any("Send" in x for x in t.supers) and not sup
+    L.append("pub struct ProvNotSend { pub g: ::core::option::Option<::std::sync::MutexGuard<'static, ()>>, pub name: &'static str }")
+    if notsend:
+        L += impl_for("ProvNotSend", "ProvNotSend", "self.name")
     dynty = "dyn Tr%s" % targs
     L.append("pub struct AppRef { pub inner: ::std::boxed::Box<%s + ::core::marker::Send + ::core::marker::Sync> }" % dynty if dyn else "pub struct AppRef;")
     L.append("pub struct AppBorrow { pub inner: ::std::boxed::Box<%s + ::core::marker::Send + ::core::marker::Sync> }" % dynty if dyn else "pub struct AppBorrow;")
@@ -132,6 +137,8 @@ def build_case(cid, rng, selector, unimock=False, force_async=False, no_send=Fal
     D.append('    ::vrt::fact("avail_right", ::vrt::implements!(::entrait::Impl<%s>: %s));' % (right, tr))
     D.append('    ::vrt::fact("avail_nonprov", ::vrt::implements!(::entrait::Impl<NonProv>: %s));' % tr)
     D.append('    ::vrt::fact("avail_wrong_selector", ::vrt::implements!(::entrait::Impl<%s>: %s));' % (wrong if dyn else "AppRef", tr))
+    if notsend:
+        D.append('    ::vrt::fact("avail_notsend", ::vrt::implements!(::entrait::Impl<ProvNotSend>: %s));' % tr)
     if notsync:
         D.append('    ::vrt::fact("avail_notsync", ::vrt::implements!(::entrait::Impl<ProvNotSync>: %s));' % tr)
     if not dyn:
@@ -157,7 +164,7 @@ def build_case(cid, rng, selector, unimock=False, force_async=False, no_send=Fal
     sigs = [m.trait_sig().replace(m.name, "") for m in t.methods]
     nt = len(t.methods) >= 2 or selector in ("ref", "Borrow") or any(
         any(a.type_text() == b.type_text() for a, b in zip(m.params, m.params[1:])) for m in t.methods)
-    meta = {"selector": selector, "calls": calls, "dyn": dyn, "notsync": notsync, "opts": opts, "entraited_supertrait": sup, "async_trait": t.async_trait,
+    meta = {"selector": selector, "calls": calls, "dyn": dyn, "notsync": notsync, "notsend": notsend, "opts": opts, "entraited_supertrait": sup, "async_trait": t.async_trait,
             "async_methods": [m.name for m in t.methods if m.is_async], "no_send": no_send, "generic": t.generic, "nontrivial": nt,
             "methods": [m.trait_sig() for m in t.methods], "same_sig": len(set(sigs)) < len(sigs)}
     return Case(cid, "\n".join(L + D) + "\n", meta=meta)
@@ -246,6 +253,8 @@ def check_case(c, rep):
         model["avail_plain_provider"] = "false"
     elif m["notsync"]:
         model["avail_notsync"] = "false"
+    if m.get("notsend"):
+        model["avail_notsend"] = "true"
     for k, want in model.items():
         if f.get(k) != want:
             rep.violation(c.id, "availability:%s=%s" % (k, f.get(k)), "probe %s = %s, model says %s (selector %s)" % (k, f.get(k), want, m["selector"]))
